@@ -14,6 +14,7 @@ package c20
 import (
 	"bytes"
 	"context"
+	"crypto/sha1"
 	"fmt"
 	"os"
 	"os/exec"
@@ -85,7 +86,16 @@ func ensureBuilt() error {
 	buildOnce.Do(func() {
 		t0 := time.Now()
 		os.MkdirAll("/verif/build", 0o755)
-		cmd := exec.Command("go", "build", "-race", "-o", binPath, "./c20/workload")
+		args := []string{"build", "-race"}
+		// bin/check exports VERIF_REPO when it tries a scratch worktree instead of /repo (seeded changes);
+		// it has then written /verif/build/go-<tag>.mod whose replace directive points there.
+		if repo := os.Getenv("VERIF_REPO"); repo != "" && repo != "/repo" {
+			tag := fmt.Sprintf("%x", sha1.Sum([]byte(repo)))[:8]
+			args = append(args, "-modfile", "/verif/build/go-"+tag+".mod")
+			binPath = binPath + "-" + tag
+		}
+		args = append(args, "-o", binPath, "./c20/workload")
+		cmd := exec.Command("go", args...)
 		cmd.Dir = harnessDir
 		cmd.Env = goEnv()
 		out, err := cmd.CombinedOutput()
